@@ -251,6 +251,7 @@ type genOpts struct {
 	enabled     bool
 	stopIf      bool
 	waitFor     bool
+	evalFail    bool // expressions that can fail at run time (absent optional input, failing conversion, division by zero)
 }
 
 func stepName(i int) string { return fmt.Sprintf("s%d", i) }
@@ -264,6 +265,10 @@ func genWorkflow(r *rng, o genOpts) *AWf {
 	}
 	if o.enabled || r.chance(1, 3) {
 		w.InputFields = append(w.InputFields, AField{Name: "flag", Type: "bool", Required: true})
+	}
+	if o.evalFail {
+		w.InputFields = append(w.InputFields, AField{Name: "opt", Type: "string", Required: false},
+			AField{Name: "z", Type: "int", Required: false, Default: "0"}, AField{Name: "lst", Type: "liststring", Required: false})
 	}
 	hasField := func(n string) bool {
 		for _, f := range w.InputFields {
@@ -307,6 +312,20 @@ func genWorkflow(r *rng, o genOpts) *AWf {
 		}
 		if r.chance(1, 6) {
 			in.put("l", AIn{K: "list", List: []AIn{lit("x"), expr("$.input.name")}})
+		}
+		if o.evalFail && r.chance(1, 3) {
+			switch r.intn(5) {
+			case 0:
+				in.put("s", expr("$.input.opt"))
+			case 1:
+				in.put("i", expr("10 / $.input.z"))
+			case 2:
+				in.put("i", expr("7 % $.input.z"))
+			case 3:
+				in.put("i", expr("stringToInt($.input.name)"))
+			default:
+				in.put("s", expr("$.input.lst[2]"))
+			}
 		}
 		s.Fields["input"] = in
 		if o.waitFor && i > 0 && r.chance(1, 3) {
